@@ -8,7 +8,9 @@ from .c08 import unproxy
 LAYOUTS = [('a', 'b', 'c'), ('d1/a', 'd1/b', 'd1/c'), ('d1/a', 'd2/b', 'c'), ('d1/x/a', 'd2/b', 'd1/c'), ('a', 'd1/d2/d3/b', 'd1/c'),
            ('d1/m', 'd2/m', 'd3/m'),
            # directory and file names are free text: blanks
-           ('a', 'my dir/b', 'my dir/other  dir/c'), ('my models/a 1', 'b', 'my models/c 2')]
+           ('a', 'my dir/b', 'my dir/other  dir/c'), ('my models/a 1', 'b', 'my models/c 2'),
+           # a sibling directory whose name extends the referrer's directory name (model / model2, run1 / run10)
+           ('model/a', 'model2/b', 'model/c'), ('run1/x/a', 'run10/b', 'run1/x2/c')]
 
 
 def _refs(o):
@@ -374,7 +376,7 @@ def path_correspondence(ctx):
     """the Lean relpath / join+normalize against URI.relative_from_me / apply_relative_from_me + normalize"""
     from pyecore.resources import URI
     rng = common.sub_rng(ctx.seed, 'C14-paths')
-    names = ['d1', 'd2', 'x', 'common', 'a.b', 'm']
+    names = ['d1', 'd2', 'x', 'common', 'a.b', 'm', 'd10', 'x2', 'comm']
     model_in, expect = [], []
 
     def rnd():
@@ -451,6 +453,9 @@ def resave_case(ctx, h, tmp):
         return r
     try:
         sp, built, ms, rset, paths, ncross = build_world(rng, h, case_dir, fmt, rng.choice([2, 2, 3]))
+        if h % 2 == 0 and rng.random() < .6:
+            for p in paths:         # (ids instead of positions: what a re-save must keep stable)
+                rset.resources[URI(p).normalize()].use_uuid = True
         for p in paths:
             rset.resources[URI(p).normalize()].save()
         rset2 = fresh(built)
@@ -466,9 +471,13 @@ def resave_case(ctx, h, tmp):
         return
     if not ncross:
         return
+    # a third of the cases: nothing is edited, and only the files *referred to* are saved again (a tool that loads a
+    # model and writes it back): the referring file, untouched on disk, still reaches the same objects
+    only_targets = h % 2 == 0
+    start = rng.randrange(len(paths))
     # edit: a new sibling in front of the children of some containers
     edits = 0
-    for r in res2:
+    for r in (res2 if not only_targets else []):
         for o in preorder(r.contents):
             for f in _refs(o):
                 if f.containment and f.many and len(o.eGet(f)) and rng.random() < .6:
@@ -478,15 +487,15 @@ def resave_case(ctx, h, tmp):
                         edits += 1
                     except Exception:
                         pass
-    if not edits:
+    if not edits and not only_targets:
         ctx.count('resave/no-edit-possible')
         return
     want = links_now(res2)
     try:
-        for r in res2:
-            r.save()
+        for k, r in enumerate(res2):
+            if not only_targets or k != start:
+                r.save()
         rset3 = fresh(built)
-        start = rng.randrange(len(paths))
         first = rset3.get_resource(URI(paths[start]))
         for o in preorder(first.contents):
             for f in _refs(o):
@@ -501,7 +510,7 @@ def resave_case(ctx, h, tmp):
                     {'case': h, 'resave': True, 'format': fmt})
         return
     ctx.evaluations += 1
-    ctx.count('resave/' + fmt)
+    ctx.count('resave/' + fmt + ('/targets-only' if only_targets else '/edited'))
     ctx.nontriv(('resave', h))
     for key in sorted(want):
         if key[0] != start:
@@ -520,7 +529,7 @@ def resave_case(ctx, h, tmp):
 def run(ctx):
     common.use_repo()
     n = 200 if ctx.quick() else 4000
-    ctx.rule = (f'{n} worlds: 2-3 generated models over one metamodel, each in its own file under 8 directory layouts (two of them with blanks in directory and file names) (same dir, '
+    ctx.rule = (f'{n} worlds: 2-3 generated models over one metamodel, each in its own file under 10 directory layouts (two of them with blanks in directory and file names) (same dir, '
                 'sibling dirs, nested up to depth 3, same file name in different dirs), XMI and JSON, with references across them '
                 '(single, many, mixed with local targets, with and without opposites), each file with or without uuids; all saved, one reloaded in a fresh resource set, '
                 'every reference followed, then the other files navigated directly: same target (resource, position), ==, hash, '
